@@ -57,8 +57,19 @@ theorem C02_gen_start_state_table :
     Generated.C02.startStateProbe = some (startStateDomain.map fun i => (i, startStateModel i)) := by
   decide +kernel
 
+/-- **websocket/ws.go `NewSession`, what a WebSocket session starts with**: for a `net.Conn`, a plain
+`io.ReadWriter` and a client `*websocket.Conn` (real opening handshake) for every scheme of its
+origin URL (http, https, ws, wss) × location URL (ws, wss), the `SessionState` of the session the
+real `websocket.NewSession` creates is the model's `init`: `Secure` exactly when the connection is
+a `*websocket.Conn` whose LOCATION is a `wss:` URL — whatever the origin. -/
+theorem C02_gen_ws_start_state_table :
+    Generated.C02.wsStartProbe = some (wsStartDomain.map fun i => (i, wsStartModel i)) := by
+  decide +kernel
+
 /-- **negotiator.go + features.go, the first features list**: for every tee variant (off, TeeIn,
-TeeOut, both), every clear connection kind, the first list empty / naming only an unknown
+TeeOut, both), every clear connection kind — TCP framing and WebSocket framing (raw carriers
+and client `*websocket.Conn`s with an http:, https:, wss: origin and a ws: location, created by
+`websocket.NewSession` / `websocket.Negotiator`) —, the first list empty / naming only an unknown
 feature / STARTTLS optional / STARTTLS required, and a peer that then stays silent or says
 `<proceed/>` and continues inside TLS, the observable trace and the outcome of the real
 `NewSession` are the model's `run` (with the three features.go behaviours C02 does not constrain
@@ -174,15 +185,61 @@ a `*tls.Conn` — a TLS layer is in place from the start, and `Secure` is set by
 when it is a `*tls.Conn`. -/
 theorem C02_starts_secure_only_on_tls (env : Env) (st0 : Mask) (i : Input) (hs : has st0 Secure = false) :
     (init env st0 i).tls = env.conn.startsSecure ∧
-    (has (init env st0 i).state Secure = true ↔ ∃ n, env.conn = .tlsConn n) := by
+    (has (init env st0 i).state Secure = true ↔
+      (∃ n, env.conn = .tlsConn n) ∨ ∃ c o, env.conn = .wsConn c o .wss) := by
   refine ⟨rfl, ?_⟩
   cases hc : env.conn with
   | tlsConn n =>
     simp only [init, hc, ConnKind.startsSecure, if_true]
-    exact ⟨fun _ => ⟨n, rfl⟩, fun _ => has_or_self st0 Secure⟩
+    exact ⟨fun _ => .inl ⟨n, rfl⟩, fun _ => has_or_self st0 Secure⟩
   | plainRW => simp [init, hc, ConnKind.startsSecure, hs]
   | netConn => simp [init, hc, ConnKind.startsSecure, hs]
   | stateMethod => simp [init, hc, ConnKind.startsSecure, hs]
+  | wsRaw n => simp [init, hc, ConnKind.startsSecure, hs]
+  | wsConn c o l =>
+    cases l
+    · simp [init, hc, ConnKind.startsSecure, hs]
+    · simp [init, hc, ConnKind.startsSecure, hs]
+    · simp [init, hc, ConnKind.startsSecure, hs]
+    · simp only [init, hc, ConnKind.startsSecure, beq_self_eq_true, if_true]
+      exact ⟨fun _ => .inr ⟨c, o, rfl⟩, fun _ => has_or_self st0 Secure⟩
+
+/-- **A session starts `Secure` only over a transport that is TLS.**  `transportTLS`: a `*tls.Conn`,
+or a `*websocket.Conn` whose location is a `wss:` URL (RFC 6455: that scheme is WebSocket over TLS;
+the origin URL, the side of the handshake and the framing say nothing about the transport).  So the
+premise "on a connection that is not yet secure" of every other theorem (`startsSecure = false`)
+holds on every connection that really is clear text. -/
+theorem C02_starts_secure_implies_transport_tls (c : ConnKind) (h : c.startsSecure = true) :
+    c.transportTLS = true := by
+  cases c <;> simp_all [ConnKind.startsSecure, ConnKind.transportTLS]
+
+/-- … and the converse on a `*tls.Conn` / `*websocket.Conn`: a connection of these two types that
+runs over TLS is recognised (no STARTTLS inside TLS). -/
+theorem C02_transport_tls_starts_secure (c : ConnKind) (h : c.transportTLS = true) :
+    c.startsSecure = true := by
+  cases c <;> simp_all [ConnKind.startsSecure, ConnKind.transportTLS]
+
+/-- the origin of a WebSocket connection and the side of its handshake do not matter -/
+theorem C02_ws_origin_irrelevant (cfg : Cfg) (env : Env) (c c' : Bool) (o o' l : Scheme) (st0 : Mask)
+    (i : Input) (fuel : Nat) :
+    run cfg { env with conn := .wsConn c o l } st0 i fuel = run cfg { env with conn := .wsConn c' o' l } st0 i fuel := by
+  cases l <;> rfl
+
+/-- **The WebSocket framing changes nothing at the level of units.**  On a clear-text carrier a
+session with the WebSocket framing (`websocket.Negotiator`: the same negotiator with `<open/>`
+headers, every configured feature — STARTTLS included — handed to `negotiateFeatures`) runs exactly
+as on a `net.Conn` with the TCP framing: same writes, same layer switch, same outcome.  (A model
+decision, tied to the code by the first-list table over both framings and by the differential run
+over the framing dimension; together with `C02_no_cleartext` … it says that a `ws:` connection gets
+the full RFC 7590 protection.) -/
+theorem C02_ws_framing_agrees (cfg : Cfg) (env : Env) (st0 : Mask) (i : Input) (fuel : Nat)
+    (k : ConnKind) (hw : k.wsFraming = true) (hc : k.transportTLS = false) :
+    run cfg { env with conn := k } st0 i fuel = run cfg { env with conn := .netConn } st0 i fuel := by
+  cases k with
+  | wsRaw n => rfl
+  | wsConn c o l => cases l <;> first | rfl | simp [ConnKind.transportTLS] at hc
+  | _ => simp [ConnKind.wsFraming] at hw
+
 
 /-- a clear-text connection is a clear-text connection, with or without a `ConnectionState()`
 method, `net.Conn` or not: the runs are identical -/
@@ -442,6 +499,48 @@ theorem C02_servername_summary (l : List SniSess) :
     obtain ⟨d, r, s2s, k⟩ := x
     cases k <;> simp [sessions, negotiateName, ih]
 
+/-- the model's `Negotiate` is one instance of the parameter -/
+theorem C02_sessions_instance (cap : Option Name) (l : List SniSess) :
+    sessions cap l = sessionsG negotiateName cap l := by
+  induction l generalizing cap with
+  | nil => rfl
+  | cons x rest ih =>
+    obtain ⟨d, r, s2s, k⟩ := x
+    cases k <;> simp [sessions, sessionsG, ih]
+
+/-- **What the server-name clause needs of `Negotiate`, made explicit.**  For ANY `Negotiate`
+(a function from the closure variable and the session's own domain to the closure variable
+afterwards and the server name): if it leaves a nil closure variable nil (`hkeep`) and the default
+configuration names the own domain (`hdef`), then every ClientHello of every session of every
+history over one `StartTLS(nil)` value names that session's own domain.  `hkeep` is the assumption
+about starttls.go; it is tied to the code by the server-name table (all histories of one to three
+sessions, A,B,A included) and the shared-writes fact, not derived. -/
+theorem C02_servername_needs_value_unchanged (f : NameFn)
+    (hkeep : ∀ d, (f none d).1 = none) (hdef : ∀ d, (f none d).2 = .dom d) (l : List SniSess) :
+    sessionsG f none l = l.map fun x => match x.kind with
+      | .p | .x => some (Name.dom x.domain)
+      | _ => none := by
+  induction l with
+  | nil => rfl
+  | cons x rest ih =>
+    obtain ⟨d, r, s2s, k⟩ := x
+    cases k <;> simp [sessionsG, hkeep, hdef, ih]
+
+/-- … and it does need it: with the `Negotiate` of the code before bd73f11 (default configuration
+assigned to the closure variable) the second session of a history offers the first one's domain. -/
+theorem C02_servername_capturing_fails :
+    ¬ ∀ l : List SniSess, sessionsG negotiateNameCapturing none l = l.map fun x => match x.kind with
+      | .p | .x => some (Name.dom x.domain)
+      | _ => none := by
+  intro h
+  have := h [⟨0, 0, false, .p⟩, ⟨1, 1, false, .p⟩]
+  revert this
+  decide
+
+/-- non-vacuity: the model's `Negotiate` meets both hypotheses -/
+example : (∀ d, (negotiateName none d).1 = none) ∧ (∀ d, (negotiateName none d).2 = .dom d) :=
+  ⟨fun _ => rfl, fun _ => rfl⟩
+
 /-- with an explicit configuration every ClientHello names that configuration's server -/
 theorem C02_servername_explicit (l : List SniSess) :
     sessions (some .explicit) l = l.map fun x => match x.kind with
@@ -514,6 +613,33 @@ theorem C02_byte_decoder_refines (tk : Tokeniser) (cs : List Bs) (b : Bs) :
         some (u, (tokAll tk b').1, absChunks tk (tokAll tk b').2 cs')
     | none => pullU (tokAll tk b).1 (absChunks tk (tokAll tk b).2 cs) = none :=
   pullB_refines tk cs b
+
+/-- **A bounded read-ahead is one more chunking.**  The decoder reads through a buffer of bounded
+size (4096 bytes), so a segment longer than that arrives as several reads: the units delivered are
+the same, and by `C02_byte_decoder_refines` the run is the unit-level run over the segmentation
+those reads induce — in particular clear text pipelined behind `<proceed/>` beyond the buffer's
+size is NOT in the read-ahead that is dropped at the switch: it is still on the connection, where
+the TLS layer finds it (the handshake fails; see the example below and the `oversized` scripts of
+the harness, which hands the model exactly this induced segmentation). -/
+theorem C02_bounded_read_ahead (tk : Tokeniser) (k n : Nat) (cs : List Bs) :
+    unitsB tk k (boundedReads n cs) [] = unitsB tk k cs [] :=
+  C02_rechunking_units tk k _ _ [] [] (by rw [boundedReads_flatten])
+
+/-- "H P w w" sent as one segment, read two bytes at a time: `<proceed/>` completes in the first
+read, the pipelined units arrive in the second — the segmentation of the second script below -/
+example : absChunks byteTokeniser [] (boundedReads 1 [[72, 80, 32, 32]]) = [[.hdr true, .proceed], [.space, .space]] := by
+  decide +kernel
+
+/-- what that means for the session: pipelined clear text inside the read-ahead is dropped and the
+handshake goes on; beyond it, the TLS layer meets clear text and the outcome is an error -/
+example :
+    (run { rr := false, rt := false, sk := true, others := [], tee := false } ⟨0, 0, none, .netConn⟩ 0
+      ⟨[[.hdr true, .list [⟨0, true, true⟩]], [.proceed, .space]], [.unit (.hdr true), .unit (.list [])], [(0, ⟨0, false, false⟩)]⟩ 20).2
+      = .done 5 true true ∧
+    (run { rr := false, rt := false, sk := true, others := [], tee := false } ⟨0, 0, none, .netConn⟩ 0
+      ⟨[[.hdr true, .list [⟨0, true, true⟩]], [.proceed], [.space]], [.unit (.hdr true), .unit (.list [])], [(0, ⟨0, false, false⟩)]⟩ 20).2
+      = .stop (.err .tls) := by
+  decide +kernel
 
 /-- **The clear-text phase is invariant under re-chunking of the peer's byte stream.**  Two
 sessions whose peers send the same clear-text bytes cut into reads differently go through the
@@ -614,6 +740,18 @@ example :
 example :
     (run cfg1 ⟨0, 1, none, .plainRW⟩ 0 ⟨[[.hdr true, .list [⟨0, false, true⟩]], [.failure]], [], [(0, ⟨0, false, false⟩)]⟩ 10).2
       = .stop (.err .refused) := by
+  decide +kernel
+
+/-- a stream error that declares the stream namespace itself ends the negotiation wherever it
+arrives — also in place of the header, in both framings -/
+example : (run cfg1 ⟨0, 0, none, .wsRaw true⟩ 0 ⟨[[.streamErrD]], [], []⟩ 10).2 = .stop (.err .streamerr) ∧
+    (run cfg1 ⟨0, 0, none, .netConn⟩ 0 ⟨[[.streamErr]], [], []⟩ 10).2 = .stop (.err .proto) := by
+  decide +kernel
+
+/-- non-vacuity: an empty first list on a clear-text `*websocket.Conn` with an https origin — the
+STARTTLS request is made, nothing else is written in clear, no session without the layer -/
+example : (run cfg1 ⟨0, 0, none, .wsConn true .https .ws⟩ 0 ⟨[[.hdr true, .list []]], [], [(0, ⟨0, false, false⟩)]⟩ 10) =
+    ([.wHdr false, .deliver true false, .deliver true false, .wStartTLS false], .stop (.err .read)) := by
   decide +kernel
 
 end XmppModel.Props.C02
